@@ -171,6 +171,54 @@ def main():
         print("INCONCLUSIVE property=%s reason=unknown property" % pid)
         return 2
     cfg = PROPS[pid]
+    parts = cfg.get("parts")
+    if not parts:
+        return run_single(pid, pid, a)
+    if a.replay:
+        w = json.load(open(a.replay))
+        part = w.get("part") or parts[0]
+        return run_single(part, pid, a)
+    # composite property: run every part, merge the evidence under the property id
+    t0 = time.time()
+    rcs = []
+    evs = []
+    for part in parts:
+        rcs.append(run_single(part, pid, a))
+        try:
+            evs.append(json.load(open(os.path.join(VERIF, "evidence", part + ".json"))))
+        except Exception:
+            pass
+    merged = {"property_id": pid, "tier": "thorough" if a.tier == "thorough" else "quick",
+              "seed": int(os.environ.get("VERIF_SEED", "1") or 1), "level": cfg.get("level", "exploration"),
+              "coverage": {"evaluations": 0, "distinct_nontrivial": 0, "rule": cfg.get("rule", ""), "samples": [], "parts": {}},
+              "assumptions": [], "wall_s": round(time.time() - t0, 2), "violations": 0}
+    for part, ev in zip(parts, evs):
+        cov = ev.get("coverage", {})
+        merged["coverage"]["evaluations"] += cov.get("evaluations", 0)
+        merged["coverage"]["distinct_nontrivial"] += cov.get("distinct_nontrivial", 0)
+        merged["coverage"]["samples"] += cov.get("samples", [])[:3]
+        merged["coverage"]["parts"][part] = cov
+        merged["assumptions"] += ev.get("assumptions", [])
+        merged["violations"] += ev.get("violations", 0)
+        try:
+            os.remove(os.path.join(VERIF, "evidence", part + ".json"))
+        except OSError:
+            pass
+    if not merged["coverage"]["rule"]:
+        merged["coverage"]["rule"] = " || ".join("%s: %s" % (p, merged["coverage"]["parts"][p].get("rule", "")) for p in merged["coverage"]["parts"])
+    tmp = os.path.join(VERIF, "evidence", pid + ".json.tmp")
+    with open(tmp, "w") as f:
+        json.dump(merged, f, indent=1, default=str)
+    os.replace(tmp, os.path.join(VERIF, "evidence", pid + ".json"))
+    if 1 in rcs:
+        return 1
+    if 2 in rcs:
+        return 2
+    return 0
+
+
+def run_single(pid, report_as, a):
+    cfg = PROPS[pid]
     tier = "thorough" if a.tier == "thorough" else "quick"
     seed = int(os.environ.get("VERIF_SEED", "1") or 1)
     t0 = time.time()
@@ -198,7 +246,7 @@ def main():
             ok, why = build(extra, os.path.join(run, "build-%s.log" % extra))
     if not ok:
         write_evidence(pid, cfg, tier, seed, t0, None, [], [], [why], {}, [], [])
-        print("INCONCLUSIVE property=%s reason=%s" % (pid, why))
+        print("INCONCLUSIVE property=%s reason=%s" % (report_as, why))
         return 2
 
     if a.replay:
@@ -323,12 +371,12 @@ def main():
         key = v["rule"] + "/" + v["class"]
         kf = None
         for k in known:
-            if k.get("status") == "known" and k["property"] == pid and k["class"] == key:
+            if k.get("status") == "known" and k["property"] == report_as and k["class"] == key:
                 kf = k
                 break
         if kf:
             if key not in printed:
-                print("KNOWN-FINDING: property=%s %s [%s]" % (pid, kf["what"], key))
+                print("KNOWN-FINDING: property=%s %s [%s]" % (report_as, kf["what"], key))
                 printed.add(key)
                 known_seen.append(key)
             continue
@@ -343,11 +391,11 @@ def main():
         printed_v.add(key)
         path = os.path.join(run, "violation-%02d.json" % len(vio_files))
         with open(path, "w") as f:
-            json.dump({"property": pid, "seed": seed, "tier": tier, "batch": v.get("batch", 0), "nbatch": nbatch,
+            json.dump({"property": report_as, "part": pid, "seed": seed, "tier": tier, "batch": v.get("batch", 0), "nbatch": nbatch,
                        "rule": v["rule"], "class": v["class"], "detail": v["detail"], "case_id": v.get("case_id"),
                        "witness": v.get("witness")}, f, indent=1, default=str)
         vio_files.append(path)
-        print("VIOLATION property=%s replay=%s" % (pid, path))
+        print("VIOLATION property=%s replay=%s" % (report_as, path))
         print("  rule=%s class=%s" % (v["rule"], v["class"]))
         print("  " + v["detail"][:600])
 
@@ -358,7 +406,7 @@ def main():
         return 1
     if inconcl:
         for r in inconcl[:10]:
-            print("INCONCLUSIVE property=%s reason=%s" % (pid, r))
+            print("INCONCLUSIVE property=%s reason=%s" % (report_as, r))
         return 2
     print("HELD property=%s tier=%s seed=%d evaluations=%d distinct_nontrivial=%d known_findings=%d wall_s=%.1f" %
           (pid, tier, seed, evals, len(fps), len(known_seen), time.time() - t0))
